@@ -21,6 +21,7 @@ class Top(param.Parameterized):
     l = param.List([])
     a = param.Parameter(None)
     u = param.Integer(0)          # nobody watches it; only its per-instance `default` attribute is edited
+    sel = param.Selector(objects=["hot", "cool", "gray"], default="gray", check_on_set=False)
     __slots__ = []
 
     @param.depends("n", watch=True)
@@ -43,7 +44,7 @@ class TopAttr(Top):
 
 def snapshot(o):
     return {"n": o.n, "l": len(o.l), "leaf": o.a is not None, "x": o.a.x if o.a is not None else None,
-            "pb": (o.param.n.bounds[1] - 5), "pd": o.param.u.default, "attr": getattr(o, "plainattr", 0), "slot": getattr(o, "slotattr", 0)}
+            "pb": (o.param.n.bounds[1] - 5), "pd": o.param.u.default, "po": 0 if list(o.param.sel.objects) == ["hot", "cool", "gray"] else 1 if list(o.param.sel.objects) == ["hot", "cool"] else repr(list(o.param.sel.objects)), "attr": getattr(o, "plainattr", 0), "slot": getattr(o, "slotattr", 0)}
 
 
 def replay(beh, opts):
@@ -53,7 +54,11 @@ def replay(beh, opts):
     objs = {"orig": cls(a=Leaf() if st0["leaf"] else None)}
     if zlib.crc32(json.dumps(beh, sort_keys=True).encode()) % 2:
         # the object under test has itself been restored from saved state once already
-        objs["orig"] = pickle.loads(pickle.dumps(objs["orig"]))
+        try:
+            objs["orig"] = pickle.loads(pickle.dumps(objs["orig"]))
+        except Exception as e:  # noqa
+            return {"status": "diverge", "step": 0, "kind": "copy_failed", "msg": "pickling a freshly built object raised %s: %s" % (type(e).__name__, str(e)[:200]),
+                    "expected": None, "observed": None, "tags": [], "nontrivial": True, "kf": []}
     objs["orig"].plainattr = 0
     if opts.get("slots"):
         objs["orig"].slotattr = 0
@@ -72,6 +77,9 @@ def replay(beh, opts):
                     objs[a["side"]].param.update(n=a["v"])
                 else:
                     objs[a["side"]].n = a["v"]
+            elif n == "setpo":
+                objs[a["side"]].param.sel.objects = ["hot", "cool"]
+                objs[a["side"]].sel = "hot"
             elif n == "setpd":
                 objs[a["side"]].param.u.default = a["d"]
             elif n == "setx":
@@ -108,7 +116,7 @@ def replay(beh, opts):
         for sd, o in objs.items():
             e = s["st"][sd]
             g = snapshot(o)
-            exp = {"n": e["n"], "l": e["l"], "leaf": e["leaf"], "x": e["x"] if e["leaf"] else None, "pb": e["pb"], "pd": e["pd"], "attr": e["attr"],
+            exp = {"n": e["n"], "l": e["l"], "leaf": e["leaf"], "x": e["x"] if e["leaf"] else None, "pb": e["pb"], "pd": e["pd"], "po": e["po"], "attr": e["attr"],
                    "slot": e["attr"] if opts.get("slots") else 0}
             if g != exp:
                 kind = "not_faithful" if n == "copy" else "not_independent" if a.get("side") != sd else "value"
